@@ -93,14 +93,14 @@ Requeued(rec, inc, err) ==
   LET tr == IF inc THEN rec.try + 1 ELSE rec.try
       e == IF err # "" THEN err ELSE rec.err
   IN IF tr < MaxTries /\ ~rec.noretry
-     THEN [rec EXCEPT !.st = "tosend", !.try = tr, !.err = e, !.reqsrv = 0]
+     THEN [rec EXCEPT !.st = "tosend", !.try = tr, !.err = e, !.reqsrv = 0, !.qsrv = 0]
      ELSE [rec EXCEPT !.st = "ending", !.try = tr, !.err = e,
                       !.endst = IF e = "" THEN "ETIMEOUT" ELSE e, !.endrc = -1]
 
 (* the same with an explicit budget (used while the server list is being edited) *)
 RequeuedN(rec, maxtries) ==
   LET tr == rec.try + 1 IN
-  IF tr < maxtries /\ ~rec.noretry THEN [rec EXCEPT !.st = "tosend", !.try = tr, !.reqsrv = 0]
+  IF tr < maxtries /\ ~rec.noretry THEN [rec EXCEPT !.st = "tosend", !.try = tr, !.reqsrv = 0, !.qsrv = 0]
   ELSE [rec EXCEPT !.st = "ending", !.try = tr, !.endst = IF rec.err = "" THEN "ETIMEOUT" ELSE rec.err, !.endrc = -1]
 
 (* ---- editing the server list (ares_set_servers*, reinit) --------------------------------------------- *)
@@ -112,7 +112,9 @@ RequeuedN(rec, maxtries) ==
 RECURSIVE PosIn(_, _, _)
 PosIn(L, s, i) == IF i > Len(L) THEN 0 ELSE IF L[i] = s THEN i ELSE PosIn(L, s, i + 1)
 SeqSet(L) == {L[i] : i \in 1..Len(L)}
-InflightOnIn(qq, s) == {id \in DOMAIN qq : qq[id].st = "inflight" /\ qq[id].srv = s}
+(* assigned to server s: in flight on it, or queued on a TCP connection to it (not yet written) *)
+InflightOnIn(qq, s) == {id \in DOMAIN qq : \/ (qq[id].st = "inflight" /\ qq[id].srv = s)
+                                           \/ (qq[id].st = "tosend" /\ qq[id].tcp /\ qq[id].qsrv = s)}
 ListEdit(sv, qq, L) ==
   LET keep == SeqSet(L)
       gone == (DOMAIN sv) \ keep
